@@ -610,6 +610,12 @@ def geometryValidateInstance (tbl : Table) (mode : Mode) (inst : Cls × Obj) : R
     | none => bad
     | some c => classValidateInstance c (mode = .attributes) inst
 
+/-- an existing geometry instance handed to a field annotated with the union (`SoundEvent(geometry=g)`):
+    pydantic returns an instance of a member class as it is; an instance of no member is refused
+    (python mode reads no attributes) -/
+def unionValidateInstance (members : List Cls) (inst : Cls × Obj) : R Obj :=
+  if members.contains inst.1 then .ok inst.2 else bad
+
 /-! ### Attribute objects: where Python finds an attribute
 
     `geometry_validate(obj, mode="attributes")` reads `obj.type` and – through pydantic's
